@@ -5,8 +5,8 @@
    stdout per line:
      (validated (ts accept|reject "<first failing check>") (mg accept|reject "..") (sizes nf ni ..))
    Every other line is answered with `(skip)`.
-   `--emit`: lines `(emit <value> (prog ..))` run the extracted `emit_cached` and execute the emitted
-   code on the extracted machine: `(emitted ok|mismatch ..)`. *)
+   `--emit`: for the same lines, check the model of value_to_instructions_from_cache against the real
+   compiler's output (see emit_check): `(emit same n) | (emit differ ".." ) | (emit skip why)`. *)
 open Remap_model
 
 let rec nat_of_int n = if n <= 0 then O else S (nat_of_int (n - 1))
@@ -219,11 +219,53 @@ let rho_named name (items : Sexp.t list) : Sexp.t list =
     | [] -> failwith ("missing rho " ^ name) in
   go items
 
+(* --emit: correspondence of the model of value_to_instructions_from_cache with the real compiler.
+   The entry function of a program whose whole body is an import (`%m`, `%m.a.b`) is a 3-instruction
+   prelude followed by the real emitted code c. The model machine runs c to a value v; the model's
+   emit_cached must re-emit exactly c for v, registering no new constant. *)
+let emit_check (fields : Sexp.t list) : string =
+  let (x, _) = program_of fields [] in
+  let entry = int_of_nat x.x_entry in
+  match List.nth_opt x.x_funcs entry with
+  | None -> "(emit skip no-entry)"
+  | Some fd ->
+    (match fd.xf_code with
+     | IStore :: ILoad O :: IPop :: rest when rest <> [] ->
+       let quiet = { x_value = None; x_bool = false } in
+       let inputs = List.map (fun i ->
+           match i with
+           | IConstant k -> (match List.nth_opt x.x_consts (int_of_nat k) with
+               | Some (XBin _) -> { x_value = Some (VBin k); x_bool = false }
+               | _ -> quiet)
+           | _ -> quiet) rest in
+       let vnil = VTuple (O, []) in
+       let s0 = { stack = []; locals = [vnil];
+                  frames = [{ fr_fn = x.x_entry; fr_base = O; fr_caps = O; fr_pc = nat_of_int 3 }]; persistent = false } in
+       (match run (project x) s0 inputs with
+        | Next s ->
+          (match s.stack with
+           | [v] ->
+             let bytes_of h = match List.nth_opt x.x_consts (int_of_nat h) with Some (XBin b) -> b | _ -> [] in
+             (match emit_cached bytes_of v x with
+              | Some (x1, code) ->
+                if List.length x1.x_consts <> List.length x.x_consts then "(emit differ \"model registers a constant the real program does not hold\")"
+                else if code = rest then Printf.sprintf "(emit same %d)" (List.length rest)
+                else Printf.sprintf "(emit differ \"model emits %d instructions, real code has %d, or they differ\")" (List.length code) (List.length rest)
+              | None -> "(emit differ \"model refuses the value\")")
+           | _ -> "(emit skip not-a-single-value)")
+        | _ -> "(emit skip model-run-did-not-complete)")
+     | _ -> "(emit skip not-a-pure-import)")
+
 let () =
+  let emit_mode = Array.length Sys.argv > 1 && Sys.argv.(1) = "--emit" in
   try
     while true do
       let line = input_line stdin in
       match (try Some (Sexp.parse line) with _ -> None) with
+      | Some (Sexp.List (Sexp.Atom "packaged" :: items)) when emit_mode ->
+        (try print_endline (emit_check (prog_named "ts" items))
+         with Failure m -> print_endline (Printf.sprintf "(emit driver-error \"%s\")" (String.escaped m))
+            | Not_found -> print_endline "(emit driver-error \"not found\")")
       | Some (Sexp.List (Sexp.Atom "packaged" :: items)) ->
         (try
            let merged = Sexp.atom (List.hd (field "merged" items)) in
